@@ -1383,6 +1383,7 @@ class SymStream:
         self.name = name
         self.closed = False
         self.reads = 0
+        self.read_budget = None
 
     # file-like surface
     def seekable(self): return True
@@ -1430,6 +1431,9 @@ class SymStream:
 
     def read(self, n=-1):
         self.reads += 1
+        if self.read_budget is not None and self.reads > self.read_budget:
+            from symx.api import ReadBudgetExceeded
+            raise ReadBudgetExceeded(self.reads)
         size = len(self.data)
         if type(n) is SymBool:
             n = _int_of_bool(n)
